@@ -1,38 +1,52 @@
 (* Properties_C19.v -- C19: the Python front end dispatches to the variant its arguments name.
-   Over the table regenerated on every run from python/package/multitensor.pyx (translator T5: the 16 top-level `if` blocks of
-   the try/finally dispatch: condition literals, the five template arguments, presence of c_v.resize, positional arguments,
-   number of calls) and from applications/src/multitensor.cpp (T3).  Finite: case analysis on the 16 combinations + vm_compute.
-   No runtime correspondence is possible here (the extension is not built; no Cython): the tie is the translator alone.
+   Over the behaviour table regenerated on every run from python/package/multitensor.pyx by the SEMANTIC translator T5 (tools/pyxsim.py):
+   the body of run() -- Cython-only syntax removed -- is executed once per combination of (weight type, directed, assortative, affinity file)
+   against recording stand-ins for numpy, the C++ containers and c_multitensor_factorization[...]; recorded are every library call (template
+   arguments; what each positional argument IS, recognised by value) and what run() returns.  How the dispatch is spelled (16 ifs, elif chain,
+   computed case number) does not matter.  The command line's table comes from applications/src/multitensor.cpp (T3).
+   Finite: case analysis on the 16 combinations + vm_compute.  The extension itself cannot be built here (no Cython): no runtime tie.
    Only statements; every proof is `exact <lemma>` (proofs live in the files imported below). *)
 From Coq Require Import List String Bool Arith.
 Import ListNotations.
 From MT Require Import GenCli GenPyx DispatchSpec CliDispatchProofs PyxDispatchProofs.
 Local Open Scope string_scope.
 
-(* for each of the 16 combinations of (integer weights, directed, assortative, affinity file) EXACTLY ONE block's condition holds; it makes *)
-(* exactly one library call whose graph direction, affinity tensor, affinity initialiser, vertex and weight types are the expected ones, *)
-(* with the expected positional arguments; it allocates the in-membership matrix (c_v.resize) exactly when directed *)
+(* for each of the 16 combinations run() makes EXACTLY ONE library call; its graph direction, affinity tensor, affinity initialiser, vertex and *)
+(* weight types are the ones the arguments name; its positional arguments are the adjacency columns (weights in the named type), the three scalars *)
+(* in the library's order, N labels, an N x K out-membership, an in-membership that is N x K exactly when directed (0 x 0 otherwise), the affinity *)
+(* vector of the model's size (zeros, or the file's values) and a generator seeded with the user's seed *)
 Theorem C19_dispatch : forall wint directed assort file : bool,
-       exists r : pyrow,
-         py_selected wint directed assort file = [r] /\
-         p_targs r = expected_pyx wint directed assort file /\
-         p_vresize r = directed /\ p_ncalls r = 1 /\ p_args r = expected_pyx_args wint.
+       exists (r : pybeh) (c : pycall),
+         py_behaviour wint directed assort file = [r] /\
+         pb_calls r = [c] /\
+         pc_targs c = expected_pyx wint directed assort file /\
+         pc_args c = expected_pyx_args wint directed assort file.
 Proof. exact pyx_dispatch. Qed.
 Print Assumptions C19_dispatch.
 
-(* the in-membership is returned as None unless `directed`; 16 blocks in all *)
-Theorem C19_returns_none : cxx_pyx_v_returned_when = "directed"%string /\
-       cxx_pyx_reshape_transposed = true /\ Datatypes.length cxx_pyx_rows = 16.
-Proof. exact pyx_tail. Qed.
-Print Assumptions C19_returns_none.
+(* the in-membership is returned as None exactly for undirected runs; u, v, the affinity blocks (entry (k,q) of layer a at row k, column q) and the *)
+(* report are the library's results *)
+Theorem C19_returns : forall wint directed assort file : bool,
+       exists r : pybeh,
+         py_behaviour wint directed assort file = [r] /\
+         pb_v_none r = negb directed /\
+         pb_u_ok r = true /\ pb_v_ok r = true /\ pb_aff_ok r = true /\ pb_report_ok r = true.
+Proof. exact pyx_returns. Qed.
+Print Assumptions C19_returns.
 
-(* the selection table agrees with the command line's (same instantiation, same allocation of v), for both weight types *)
+(* one behaviour per combination *)
+Theorem C19_sixteen : Datatypes.length cxx_pyx_behaviour = 16.
+Proof. exact pyx_table_size. Qed.
+Print Assumptions C19_sixteen.
+
+(* the selection agrees with the command line's (same instantiation, same allocation of v), for both weight types *)
 Theorem C19_agrees_with_cli : forall wint directed assort file : bool,
-       exists (rp : pyrow) (rc : clirow),
-         py_selected wint directed assort file = [rp] /\
+       exists (rp : pybeh) (cp : pycall) (rc : clirow),
+         py_behaviour wint directed assort file = [rp] /\
+         pb_calls rp = [cp] /\
          cli_selected directed assort file = [rc] /\
-         map pyx_to_cxx (firstn 3 (p_targs rp)) = with_defaults (c_targs rc) /\
-         p_vresize rp = c_vresize rc.
+         map pyx_to_cxx (firstn 3 (pc_targs cp)) = with_defaults (c_targs rc) /\
+         v_allocated cp = c_vresize rc.
 Proof. exact tables_agree. Qed.
 Print Assumptions C19_agrees_with_cli.
 
